@@ -60,8 +60,8 @@ FINDING_TEXTS = {
                         b'{if false then 13@SI}(#(g10))}\n', []),
 }
 
-TIME_BOUND = {"known": 5, "enum": 3, "random": 10, "dirs": 10, "mutant": 30, "stress": 120}
-VLIMIT_KB = {"known": 1000000, "enum": 64000, "random": 1000000, "dirs": 1000000, "mutant": 3000000, "stress": 3000000}
+TIME_BOUND = {"known": 5, "enum": 3, "random": 10, "dirs": 10, "mutant": 10, "stress": 120}
+VLIMIT_KB = {"known": 1000000, "enum": 64000, "random": 1000000, "dirs": 1000000, "mutant": 1500000, "stress": 3000000}
 MAX_REPORT = 25
 
 
@@ -516,7 +516,8 @@ each other family) -- what this subset catches the quick tier catches.  The mach
       b'#assert t\\n#if t\\n': exit 0 ... InvalidDiagnosed" (Directives.tla certifies if-balance)
  M5 parseby.c:yyerrorfn       ALDOR_E_SyntaxNoRecovery reported as a warning           CAUGHT: 84 x "fault:program-fault ... site
       abnorm.c:abnorm" (the driver goes on with the failed parse; Total)
- M3 (re-run after the -Fap change): see RESULT_M3 in the final report of the builder.
+ M3 (re-run after the -Fap change)                                                     CAUGHT: 20+ x "no-diagnostic on enum input
+      b'r"' / b'"7' / b'".' ...: exit 0, 0 error line(s) -- TLC: invariant InvalidDiagnosed"
 
 Inverse experiment: with hooks/fix-C07-{lone-hash-eof-hang,keyix-negative-index,nul-byte-cuts-line,exit-status-wrap,quit-in-batch}.diff
 applied (worktree /tmp/wt-c07fix, VERIF_SRC) the five scanner/driver findings disappear from the same run: no hang, no keyTag fault,
@@ -535,7 +536,14 @@ Recorded-event corruption (checks.c07.selftest(): two accepted runs, `-- nothing
  last PhEnd dropped                               stuck at FileEnd
  Msg error inserted before the output             stuck at OutOpen(ao) (code output after an error)
 
+Unchanged tree: quick exits 0 ("held", 13 KNOWN-FINDING lines) with VERIF_SEED default; the seed reaches only the random family,
+which was also run with VERIF_SEED=1 and 777 (held).  Wall 297 s at load average 42 on 16 cores (1 490 CPU-seconds, of which about
+350 are the 392 texts that trigger the lone-`#` loop, each running until its 64 MB address-space bound).
+
 Model corrections made during development (not findings):
+ * a corpus text with an `#if 0 ... #endif` region: deleting a bracket inside the skipped region was certified "brackets".  Scan.tla
+   does not transcribe the includer's conditionals, so SrcText!Faithful now withholds certificates from texts with #if/#else/#endif
+   lines (the directive soups, where Directives.tla models them, are the place where those are certified).
  * Scan.tla takes a system-command line literally; scan.c:scanSysCommand processes escapes there (`#_<newline>"` continues the
    command onto the next line).  SrcText!Faithful now withholds every certificate from a text with an escape on a `#` line.
  * `-continue` prints the whole behaviour for each invariant violation; with ~10 % of 35 000 runs violating InvalidDiagnosed a
